@@ -68,6 +68,9 @@ func bufOps() []bufOp {
 		ops = append(ops, bufOp{Name: "raw WriteString(" + q(p) + ")", Kind: 'w', Raw: true, Text: []byte(p), Valid: true, Apply: func(b *buffer.Buffer) { b.WriteString(p) }})
 	}
 	ops = append(ops, bufOp{Name: "Grow(3)", Kind: 'g', Apply: func(b *buffer.Buffer) { b.Grow(3) }})
+	// a generous reservation and a Reset that keeps the storage: both leave much more capacity than content
+	ops = append(ops, bufOp{Name: "Grow(300)", Kind: 'g', Apply: func(b *buffer.Buffer) { b.Grow(300) }})
+	ops = append(ops, bufOp{Name: "Reset", Kind: 'z', Apply: func(b *buffer.Buffer) { b.Reset() }})
 	// fill an EMPTY buffer up to 60 safe bytes (already escaped), so that the following levels work at the edge of
 	// the first 64-byte allocation (spare capacity 4,3,2,1,0 and the re-allocation)
 	fill := strings.Repeat("a", 60)
@@ -132,6 +135,9 @@ func bufKey(b *buffer.Buffer) (key string, pendingLen int) {
 	sc := 0
 	if spare >= 3 {
 		sc = 2
+		if st.Cap > 64 && len(st.Buf)*4 <= st.Cap {
+			sc = 3 // mostly unused storage (after Reset of a large buffer or a generous Grow)
+		}
 	} else if spare > 0 {
 		sc = 1
 	}
